@@ -265,6 +265,168 @@ func patOrB(b []byte) string {
 	return B(b)
 }
 
+// ---- bursts: several messages back to back in ONE direction, slow reader ----
+// Message idx of a burst is filled with bytes that identify the message and the offset
+// (Corr.C20.IDX regenerates them), so that a mix of two messages is visible.
+func idxBytes(n, idx int) []byte {
+	b := make([]byte, n)
+	for j := range b {
+		b[j] = byte(idx*61 + j + (j/256)*13)
+	}
+	return b
+}
+
+var burstSeq int
+
+// e2eBurst: dir 0 = client -> server (bundled websocket.Client.Push), dir 1 = server -> client
+// (Conn.SendData of the upgraded connection).  The sender writes the whole burst without waiting
+// for anything; the receiver issues its first ReadData/Recv only after the last message was
+// written.  An attempt that delivers k results (right or wrong) is reported at once; one that does
+// not finish in time is retried on a fresh connection, and if no attempt finishes the last one is
+// reported with what was received followed by (IErr 7) = did not return.
+func e2eBurst(dir int, lens []int) {
+	burstSeq++
+	path := fmt.Sprintf("/burst%d", burstSeq)
+	url := fmt.Sprintf("http://%s:%d%s", e2eIP, e2ePort, path)
+	msgs := make([][]byte, len(lens))
+	var terms []string
+	for i, n := range lens {
+		msgs[i] = idxBytes(n, i)
+		terms = append(terms, fmt.Sprintf("(IDX %d %d)", n, i))
+	}
+	var last []string
+	const attempts = 3
+	for attempt := 0; attempt < attempts; attempt++ {
+		http.VerifResetMux()
+		var mu sync.Mutex
+		var got []string
+		record := func(d []byte, err error) bool {
+			mu.Lock()
+			defer mu.Unlock()
+			if err != nil {
+				got = append(got, "(IErr 6)")
+				return false
+			}
+			got = append(got, "(IOk "+B(d)+")")
+			return true
+		}
+		upgraded := make(chan struct{})   // client: Upgrade() returned
+		written := make(chan struct{})    // sender: whole burst written
+		readDone := make(chan struct{})   // receiver: finished
+		srvDone := make(chan struct{}, 1) // handler returned
+		e2eSrv.HandleFunc(path, func(rq *http.Request, rs *http.Response) {
+			defer func() { recover(); srvDone <- struct{}{} }()
+			c, err := websocket.Upgrade(rq, rs)
+			if err != nil {
+				return
+			}
+			if dir == 0 {
+				select {
+				case <-written:
+				case <-time.After(20 * time.Second):
+					return
+				}
+				for range msgs {
+					if !record(c.ReadData()) {
+						break
+					}
+				}
+				close(readDone)
+			} else {
+				select {
+				case <-upgraded:
+				case <-time.After(20 * time.Second):
+					return
+				}
+				for _, m := range msgs {
+					c.SendData(m)
+				}
+				close(written)
+				select {
+				case <-readDone:
+				case <-time.After(20 * time.Second):
+				}
+			}
+		})
+		ok, _ := within(12*time.Second, func() {
+			c, err := websocket.NewClient(url)
+			if err != nil {
+				return
+			}
+			time.Sleep(3 * time.Millisecond)
+			if err := c.Upgrade(); err != nil {
+				return
+			}
+			close(upgraded)
+			if dir == 0 {
+				for _, m := range msgs {
+					c.Push(string(m))
+				}
+				close(written)
+				<-readDone
+			} else {
+				<-written
+				for range msgs {
+					d, err := c.Recv()
+					if !record([]byte(d), err) {
+						break
+					}
+				}
+				close(readDone)
+			}
+			select {
+			case <-srvDone:
+			case <-time.After(2 * time.Second):
+			}
+			c.Close()
+		})
+		mu.Lock()
+		last = append([]string(nil), got...)
+		mu.Unlock()
+		if ok && len(last) == len(msgs) {
+			break
+		}
+		if ok && len(last) > 0 && last[len(last)-1] == "(IErr 6)" {
+			break // the receiver got an error from ReadData: an observation, not a hang
+		}
+		e2eRetries++
+		if attempt == attempts-1 {
+			last = append(last, "(IErr 7)")
+			e2eGiveUps++
+		}
+		time.Sleep(50 * time.Millisecond)
+	}
+	fmt.Fprintf(w, "CWsBurst %d [%s] [%s]\n", dir, strings.Join(terms, ";"), strings.Join(last, ";"))
+	count("e2e-burst")
+}
+
+// bursts as closures (spread over the output: the large ones are large literals)
+func e2eBursts(big int) []func() {
+	var out []func()
+	add := func(lens ...int) {
+		for dir := 0; dir < 2; dir++ {
+			dir := dir
+			out = append(out, func() { e2eBurst(dir, lens) })
+		}
+	}
+	// later messages fit the capacity of earlier ones
+	add(300, 300, 125, 0, 126, 200)
+	add(1000, 1000, 70, 1000, 1)
+	add(126, 125, 124)
+	add(20000, 20000, 300, 16000, 125, 0)
+	if big >= 2 {
+		add(70000, 70000, 300, 65536, 125, 0)
+		add(65536, 65535, 65536)
+		add(5, 4, 3, 2, 1, 0)
+		add(127, 127, 127, 127)
+	}
+	if big >= 3 {
+		add(200*1024, 200*1024)
+		add(131072, 100, 131072, 100)
+	}
+	return out
+}
+
 // the sessions with large messages, as closures that main spreads over the output (see bigCases)
 func e2eBig(r *gen.Rng, big int) []func() {
 	var out []func()
